@@ -138,7 +138,7 @@ def c18_counters(method, backward=False):
     def unit(tier="quick", seed=0):
         t0 = time.time()
         ob = Ob(f"c18_counters_{method.lower()}" + ("_back" if backward else ""))
-        paths, gen_s = paths_for(method, "body", backward, True, flags_symbolic=False)
+        paths, gen_s = paths_for(method, "body", backward, True)      # callback flags symbolic: the counters must be right on the Interrupt / ModifiedSolution exits too
         ob.paths = len(paths)
         for p in paths:
             if p.outcome[0] == "panic":
